@@ -46,6 +46,7 @@ HINTS = {
         }
     }''',
     'justify_file_create': 'lemma_trunc(kv_old.now, kv_old.gran);',
+    'justify_file_set_len': 'lemma_trunc(kv_old.now, kv_old.gran);',
     'justify_openoptions_open': 'lemma_trunc(kv_old.now, kv_old.gran);',
     'justify_create_dir': '''assert forall|d: PathV| #[trigger] kv_fin.dirs.contains(d) implies !kv_fin.in_cache_namespace(d) by {
         if !kv_old.dirs.contains(d) {
